@@ -366,12 +366,19 @@ class Impl:
 		facade_class = self.nem if 'nem' == network else self._symbol_class
 		return facade_class.KeyPair(self.types[1](secret))
 
-	def verify(self, network, public_key, message, signature):
-		"""Verifier(public_key).verify(message, signature) as one of accept/reject/zeroKey/libraryError/error:<type>."""
+	def verify(self, network, public_key, message, signature, key_type='crypto'):
+		"""Verifier(public_key).verify(message, signature) as one of accept/reject/zeroKey/libraryError/error:<type>.
+
+		key_type: the class of the key object handed to the verifier - CryptoTypes.PublicKey ('crypto') or the codec's own
+		PublicKey ('codec'), which is what a transaction's signer_public_key and a cosignature's signer are."""
 		import nacl.exceptions
 		facade_class = self.nem if 'nem' == network else self._symbol_class
+		key_class = self.types[2]
+		if 'codec' == key_type:
+			import importlib
+			key_class = importlib.import_module('symbolchain.nc' if 'nem' == network else 'symbolchain.sc').PublicKey
 		try:
-			verifier = facade_class.Verifier(self.types[2](public_key))
+			verifier = facade_class.Verifier(key_class(public_key))
 		except ValueError as ex:
 			return 'zeroKey' if 'cannot be zero' in str(ex) else f'error:{type(ex).__name__}'
 		try:
@@ -617,9 +624,9 @@ class Checker:
 			f'sign {network} {hx(secret)} {hx(message)}', 'signature != deterministic reference Ed25519 signature')
 		return bytes.fromhex(answer[3:]) if answer.startswith('ok ') else None
 
-	def verify(self, network, public_key, message, signature, required, what):
-		answer = self.impl.verify(network, public_key, message, signature)
-		self.add('verify', {'network': network, 'public_key': public_key, 'message': message, 'signature': signature}, answer, required,
+	def verify(self, network, public_key, message, signature, required, what, key_type='crypto'):
+		answer = self.impl.verify(network, public_key, message, signature, key_type)
+		self.add('verify', {'network': network, 'public_key': public_key, 'message': message, 'signature': signature, 'key_type': key_type.encode('utf8')}, answer, required,
 			f'verify {network} {hx(public_key)} {hx(message)} {hx(signature)}', what)
 
 	# --- transactions
@@ -751,6 +758,14 @@ def _perturb_signature(checker, rng, network, public_key, message, signature, bi
 	checker.verify(network, public_key, message, bytes(64), 'reject', 'all-zero signature is not refused cleanly')
 	checker.verify(network, bytes(32), message, signature, 'zeroKey', 'the all-zero public key is not refused')
 	ctx.count('perturb:zero-S-and-key', 3)
+	# the same through the key class of the codec (what signer_public_key of a deserialized transaction is)
+	checker.verify(network, public_key, message, signature, 'accept', 'a good signature is refused when the key is a codec PublicKey', 'codec')
+	checker.verify(network, bytes(32), message, signature, 'zeroKey', 'the all-zero public key is not refused when it is a codec PublicKey', 'codec')
+	# small-order forgery for the zero key (order 4 point): R = [r]B, S = r verifies under A = 0 wherever the key is not refused
+	forged = _ref_encode(_ref_base_mul(7)) + (7).to_bytes(32, 'little')
+	for key_type in ('crypto', 'codec'):
+		checker.verify(network, bytes(32), message, forged, 'zeroKey', f'the all-zero public key ({key_type} class) is not refused for a forged signature', key_type)
+	ctx.count('perturb:codec-key-class', 4)
 
 
 def _sample_bits(rng, count, width):
@@ -798,6 +813,16 @@ def _transaction_round_body(checker, rng, network, all_bits=False):
 	checker.public_key(network, secret)
 	checker.verify_transaction(network, seed, buffer, transaction, signature, 'accept', 'the transaction signature does not verify')
 	checker.verify(network, key_pair.public_key.bytes, payload, signature, 'accept', 'the signature does not verify for the documented payload')
+
+	# a transaction whose signer is the all-zero key (a default-constructed signer) is refused, whatever the signature
+	signer_start = layout.nem_signer[0] if 'nem' == network else layout.signer[0]
+	zero_signer_buffer = buffer[:signer_start] + bytes(32) + buffer[signer_start + 32:]
+	zero_signer = impl.deserialize(network, seed, zero_signer_buffer)
+	if zero_signer is not None:
+		forged = _ref_encode(_ref_base_mul(11)) + (11).to_bytes(32, 'little')
+		for candidate in (signature, forged):
+			checker.verify_transaction(network, seed, zero_signer_buffer, zero_signer, candidate, 'zeroKey', 'a transaction signed by the all-zero public key is not refused')
+		ctx.count('object:zero-signer', 2)
 
 	# the signature field itself and (Symbol) the size field do not enter the payload: attaching the signature keeps it valid
 	facade.transaction_factory.attach_signature(transaction, impl.types[3](signature))
@@ -1058,7 +1083,8 @@ def replay(ctx, payload):
 	elif 'sign' == name:
 		checker.sign(args['network'], args['secret'], args['message'])
 	elif 'verify' == name:
-		checker.verify(args['network'], args['public_key'], args['message'], args['signature'], case['required'], payload['what'])
+		key_type = args['key_type'].decode('utf8') if isinstance(args.get('key_type'), bytes) else (args.get('key_type') or 'crypto')
+		checker.verify(args['network'], args['public_key'], args['message'], args['signature'], case['required'], payload['what'], key_type)
 	elif name in ('payload', 'sign_tx', 'verify_tx', 'cosign'):
 		network = args.get('network', 'symbol')
 		seed = args.get('seed')
